@@ -94,7 +94,10 @@ func checkC13(c *Ctx, r *Result, tier string) {
 	c13SharedProvider(c, r)
 	c13PoolReleasedOnce(c, r, funcs)
 	r.Extra["objects_stored_into_shared_containers_under_a_lock"] = cPublishThenWrite(c, r, "R13f", NewLockFlows(c),
-		map[string]bool{"parser": true, "interpreter": true, "scope": true, "util": true, "stdlib": true, "engine": true, "engine/pool": true, "engine/pubsub": true, "cli/tool": true, "config": true})
+		// the packages in which a parse and the construction of runtime components run; the seeded change C13-8
+		// (a cache of parsed imports whose entry is completed after it was stored) is the positive example of
+		// every thorough run — the unchanged tree has no such store in these packages
+		map[string]bool{"parser": true, "interpreter": true, "scope": true, "util": true, "stdlib": true, "config": true})
 	for _, fn := range funcs {
 		perPkg[c.PkgOf(fn)]++
 		key := c.FuncKey(fn)
